@@ -410,8 +410,10 @@ VOP(ar_api)
 					Dictionary::Ptr fvars = query->Get("filter_vars");
 					std::vector<const String *> hs;
 					std::vector<std::pair<const String *, const String *>> ss;
-					fast = svc ? ApplyRule::GetTargetServices(dict->GetExpressions().at(0).get(), ss, fvars)
-					           : ApplyRule::GetTargetHosts(dict->GetExpressions().at(0).get(), hs, fvars);
+					// GetFilterTargets evaluates instead when a filter variable is named like what EvaluateFilter sets
+					bool shadowed = fvars && (fvars->Contains("obj") || fvars->Contains("host") || fvars->Contains("service"));
+					fast = !shadowed && (svc ? ApplyRule::GetTargetServices(dict->GetExpressions().at(0).get(), ss, fvars)
+					                         : ApplyRule::GetTargetHosts(dict->GetExpressions().at(0).get(), hs, fvars));
 				}
 			} catch (const std::exception&) { }
 		}
